@@ -25,12 +25,31 @@ def add_queries(ws, steps, stdlib):
     return nq
 
 
+def _is_import_line(l):
+    return l.startswith("from .") or l.startswith("from ..") or l.startswith("pytest_plugins")
+
+
 def make_case(cid, rnd, stdlib):
     import wsgen as W
     ws = ws_prop.gen_ws(cid, rnd)
     steps = W.build_steps(ws)
+    tags = list(ws["tags"])
+    # a conftest.py whose imports arrive by a later edit, after every per-file view has been
+    # computed once (the views are memoised; the other features are not)
+    cands = [q for q in sorted(ws["files"]) if q.endswith("/conftest.py")
+             and any(_is_import_line(l) for l in ws["files"][q].split("\n"))]
+    late = rnd.choice(cands) if cands and cid % 3 == 0 else None
+    if late:
+        stripped = "\n".join(l for l in ws["files"][late].split("\n") if not _is_import_line(l))
+        for st in steps:
+            if st.get("op") == "analyze" and st.get("path") == late:
+                st["text"] = stripped
+        tags.append("edit:imports-arrive-late")
     nq = add_queries(ws, steps, stdlib)
-    return {"id": cid, "steps": steps, "tags": ws["tags"], "queries": nq}
+    if late:
+        steps.append({"op": "analyze", "path": late, "text": ws["files"][late]})
+        nq += add_queries(ws, steps, stdlib)
+    return {"id": cid, "steps": steps, "tags": tags, "queries": nq}
 
 
 def corpus(stdlib):
